@@ -112,6 +112,12 @@ where
         S: DataMut,
     {
         let n = self.len();
+        assert!(
+            i < n,
+            "index out of bounds: the len is {} but the index is {}",
+            n,
+            i
+        );
         if n == 1 {
             self[0].clone()
         } else {
@@ -139,6 +145,14 @@ where
         let mut deduped_indexes: Vec<usize> = indexes.to_vec();
         deduped_indexes.sort_unstable();
         deduped_indexes.dedup();
+        if let Some(&largest) = deduped_indexes.last() {
+            assert!(
+                largest < self.len(),
+                "index out of bounds: the len is {} but the index is {}",
+                self.len(),
+                largest
+            );
+        }
 
         get_many_from_sorted_mut_unchecked(self, &deduped_indexes)
     }
